@@ -1060,6 +1060,8 @@ func (m *Machine) extMethod(e *Ext, name string, args []Value) Value {
 					}
 				}
 				switch x := d.(type) {
+				case *JSONBlob:
+					return jsonLen(x)
 				case string:
 					return int64(len(x))
 				case *sym.Str:
